@@ -1347,6 +1347,127 @@ def flatten_row_tables(func):
     return func
 
 
+def flatten_keyed_tables(func):
+    """Change of representation put back: a sparse table kept as a dict keyed by (row, column)
+
+        M = {}  ...  M[(a, b)] = M.get((a, b), c) + t  ...  if (a, b) in M: M[(a, b)] = g(M[(a, b)])  ...
+        F = [M.get((r, q), c) for r in range(NR) for q in range(NC)]
+
+    is the dense row-major table `M = [c] * NR * NC` with `M[a * NC + b] += t`, `M[a * NC + b] != c` for the membership test (an
+    entry exists iff something was added to the default), F being M itself.  Applied only when EVERY use of M has one of these
+    forms with one and the same default c, NR / NC are names bound once before M, and M is not used after F was cut from it."""
+    assigned, first_store = {}, {}
+    for i, st in enumerate(func.body):
+        for n in ast.walk(st):
+            if isinstance(n, ast.Name) and isinstance(n.ctx, (ast.Store, ast.Del)):
+                first_store.setdefault(n.id, i)
+    for n in ast.walk(func):
+        if isinstance(n, ast.Name) and isinstance(n.ctx, (ast.Store, ast.Del)):
+            assigned[n.id] = assigned.get(n.id, 0) + 1
+    params = {a.arg for a in ast.walk(func.args) if isinstance(a, ast.arg)}
+
+    def key2(k):
+        return (k.elts[0], k.elts[1]) if isinstance(k, ast.Tuple) and len(k.elts) == 2 and not any(isinstance(e, ast.Starred) for e in k.elts) else None
+
+    for fi, fst in enumerate(func.body):
+        if not (isinstance(fst, ast.Assign) and len(fst.targets) == 1 and isinstance(fst.targets[0], ast.Name) and isinstance(fst.value, ast.ListComp)
+                and len(fst.value.generators) == 2 and not any(g.ifs for g in fst.value.generators)):
+            continue
+        g0, g1 = fst.value.generators
+        rng = lambda g: g.iter.args[0] if (isinstance(g.iter, ast.Call) and isinstance(g.iter.func, ast.Name) and g.iter.func.id == "range"
+                                           and len(g.iter.args) == 1 and not g.iter.keywords and isinstance(g.target, ast.Name)) else None
+        nr, nc = rng(g0), rng(g1)
+        e = fst.value.elt
+        if nr is None or nc is None or not isinstance(nr, ast.Name) or not isinstance(nc, ast.Name):
+            continue
+        m = default = None
+        if isinstance(e, ast.Call) and isinstance(e.func, ast.Attribute) and e.func.attr == "get" and isinstance(e.func.value, ast.Name) and len(e.args) == 2 \
+                and not e.keywords and isinstance(e.args[1], ast.Constant):
+            m, k, default = e.func.value.id, key2(e.args[0]), e.args[1]
+        elif isinstance(e, ast.Subscript) and isinstance(e.value, ast.Name):
+            m, k = e.value.id, key2(e.slice)
+        else:
+            continue
+        if k is None or not all(isinstance(x, ast.Name) for x in k) or (k[0].id, k[1].id) != (g0.target.id, g1.target.id):
+            continue
+        fname = fst.targets[0].id
+        inits = [(i, st) for i, st in enumerate(func.body[:fi]) if isinstance(st, ast.Assign) and len(st.targets) == 1 and isinstance(st.targets[0], ast.Name)
+                 and st.targets[0].id == m]
+        if len(inits) != 1 or assigned.get(m, 0) != 1 or assigned.get(fname, 0) != 1 or m in params:
+            continue
+        ii, init = inits[0]
+        iv = init.value
+        if isinstance(iv, ast.Dict) and not iv.keys or (isinstance(iv, ast.Call) and ast.unparse(iv.func) == "dict" and not iv.args and not iv.keywords):
+            pass
+        elif isinstance(iv, ast.Call) and ast.unparse(iv.func).split(".")[-1] == "defaultdict" and len(iv.args) == 1 and isinstance(iv.args[0], ast.Lambda) \
+                and not iv.args[0].args.args and isinstance(iv.args[0].body, ast.Constant):
+            if default is not None and default.value != iv.args[0].body.value:
+                continue
+            default = iv.args[0].body
+        else:
+            continue
+        if default is None:
+            continue
+        for nm in (nr.id, nc.id):
+            if not (nm in params or (assigned.get(nm, 0) == 1 and first_store.get(nm, 10 ** 9) < ii)):
+                default = None
+        if default is None:
+            continue
+        if any(isinstance(n, ast.Name) and n.id == m for st in func.body[fi + 1:] for n in ast.walk(st)) or \
+                any(isinstance(n, ast.Name) and n.id == fname for st in func.body[:fi] for n in ast.walk(st)):
+            continue
+        # classify every use of M between its initialisation and the flattening
+        parent = {}
+        for st in func.body[:fi]:
+            for n in ast.walk(st):
+                for ch in ast.iter_child_nodes(n):
+                    parent[id(ch)] = n
+        plan, ok = [], True
+
+        def flat(k_):
+            return ast.BinOp(left=ast.BinOp(left=copy.deepcopy(k_[0]), op=ast.Mult(), right=ast.Name(id=nc.id, ctx=ast.Load())), op=ast.Add(), right=copy.deepcopy(k_[1]))
+        for st in func.body[:fi]:
+            for u in [n for n in ast.walk(st) if isinstance(n, ast.Name) and n.id == m and n is not init.targets[0]]:
+                p1 = parent.get(id(u))
+                p2 = parent.get(id(p1)) if p1 is not None else None
+                if isinstance(p1, ast.Subscript) and p1.value is u and key2(p1.slice) is not None:
+                    plan.append(("sub", p1, key2(p1.slice)))
+                elif isinstance(p1, ast.Attribute) and p1.attr == "get" and isinstance(p2, ast.Call) and p2.func is p1 and len(p2.args) == 2 and not p2.keywords \
+                        and key2(p2.args[0]) is not None and isinstance(p2.args[1], ast.Constant) and p2.args[1].value == default.value:
+                    plan.append(("get", p2, key2(p2.args[0])))
+                elif isinstance(p1, ast.Compare) and len(p1.ops) == 1 and isinstance(p1.ops[0], (ast.In, ast.NotIn)) and p1.comparators[0] is u and key2(p1.left) is not None:
+                    plan.append(("in", p1, key2(p1.left)))
+                else:
+                    ok = False
+        if not ok or not plan:
+            continue
+        for kind, node, k_ in plan:
+            if kind == "sub":
+                node.slice = flat(k_)
+            elif kind == "get":
+                new = ast.Subscript(value=ast.Name(id=m, ctx=ast.Load()), slice=flat(k_), ctx=ast.Load())
+                par = parent[id(node)]
+                for fld, val in ast.iter_fields(par):
+                    if val is node:
+                        setattr(par, fld, new)
+                    elif isinstance(val, list):
+                        for j, x in enumerate(val):
+                            if x is node:
+                                val[j] = new
+            else:
+                negate = isinstance(node.ops[0], ast.NotIn)
+                node.left = ast.Subscript(value=ast.Name(id=m, ctx=ast.Load()), slice=flat(k_), ctx=ast.Load())
+                node.ops = [ast.Eq() if negate else ast.NotEq()]
+                node.comparators = [ast.Constant(value=default.value)]
+        init.value = ast.BinOp(left=ast.BinOp(left=ast.List(elts=[ast.Constant(value=default.value)], ctx=ast.Load()), op=ast.Mult(), right=ast.Name(id=nr.id, ctx=ast.Load())),
+                               op=ast.Mult(), right=ast.Name(id=nc.id, ctx=ast.Load()))
+        del func.body[fi]
+        func.body[fi:] = [_Rename({fname: m}).visit(b) for b in func.body[fi:]]
+        ast.fix_missing_locations(func)
+        return flatten_keyed_tables(func)
+    return func
+
+
 # ----------------------------------------------------------------------------------------------------------- copy coalescing
 
 def coalesce_copies(func):
